@@ -863,12 +863,12 @@ SELFTEST = [
     {"name": "remove_all_methods unlocked", "file": MF, "expect": "C18.R1",
      "old": "        with self._lock:\n            self._methods = lmap.EMPTY\n            self._reset_cache()\n", "new": "        self._methods = lmap.EMPTY\n        self._reset_cache()\n"},
     {"name": "cache read before staleness test", "file": MF, "expect": "C18.R2",
-     "old": "        if self._cached_hierarchy != self._hierarchy.deref():\n            self._reset_cache()\n\n        cached_val = self._cache.val_at(key)\n        if cached_val is not None:\n            return cached_val\n",
-     "new": "        cached_val = self._cache.val_at(key)\n        if cached_val is not None:\n            return cached_val\n\n        if self._cached_hierarchy != self._hierarchy.deref():\n            self._reset_cache()\n"},
+     "old": "            with self._lock:\n                self._reset_cache()\n\n        cached_val = self._cache.val_at(key)\n        if cached_val is not None:\n            return cached_val\n",
+     "new": "            pass\n        cached_val = self._cache.val_at(key)\n        if cached_val is not None:\n            return cached_val\n\n        if self._cached_hierarchy != self._hierarchy.deref():\n            with self._lock:\n                self._reset_cache()\n"},
     {"name": "staleness test dropped", "file": MF, "expect": "C18.R2",
-     "old": "        if self._cached_hierarchy != self._hierarchy.deref():\n            self._reset_cache()\n\n", "new": ""},
+     "old": "        if self._cached_hierarchy != self._hierarchy.deref():\n            # Under the lock", "new": "        if False:\n            # Under the lock"},
     {"name": "staleness test inverted", "file": MF, "expect": "C18.R2",
-     "old": "        if self._cached_hierarchy != self._hierarchy.deref():\n            self._reset_cache()\n", "new": "        if self._cached_hierarchy == self._hierarchy.deref():\n            self._reset_cache()\n"},
+     "old": "        if self._cached_hierarchy != self._hierarchy.deref():\n            # Under the lock", "new": "        if self._cached_hierarchy == self._hierarchy.deref():\n            # Under the lock"},
     {"name": "reset does not refresh hierarchy snapshot", "file": MF, "expect": "C18.R3",
      "old": "        self._cache = self._methods\n        self._cached_hierarchy = self._hierarchy.deref()\n", "new": "        self._cache = self._methods\n"},
     {"name": "cache keeps old entries on reset", "file": MF, "expect": "C18.R3",
@@ -881,7 +881,8 @@ SELFTEST = [
     {"name": "twin: inline reset", "file": MF, "expect": None,
      "old": "            self._methods = lmap.EMPTY\n            self._reset_cache()\n", "new": "            self._methods = lmap.EMPTY\n            self._cache = lmap.EMPTY\n            self._cached_hierarchy = self._hierarchy.deref()\n"},
     {"name": "twin: equality-form staleness test", "file": MF, "expect": None,
-     "old": "        if self._cached_hierarchy != self._hierarchy.deref():\n            self._reset_cache()\n", "new": "        if self._cached_hierarchy == self._hierarchy.deref():\n            pass\n        else:\n            self._reset_cache()\n"},
+     "old": "        if self._cached_hierarchy != self._hierarchy.deref():\n            # Under the lock, so that a search still running against the old hierarchy\n            # cannot store its answer into the cache after it was reset for the new one\n            with self._lock:\n                self._reset_cache()\n",
+     "new": "        if self._cached_hierarchy == self._hierarchy.deref():\n            pass\n        else:\n            with self._lock:\n                self._reset_cache()\n"},
     {"name": "twin: try/finally reset", "file": MF, "expect": None,
      "old": "            if method:\n                self._methods = self._methods.dissoc(key)\n            self._reset_cache()\n            return method\n",
      "new": "            try:\n                if method:\n                    self._methods = self._methods.dissoc(key)\n                return method\n            finally:\n                self._reset_cache()\n"},
